@@ -78,6 +78,13 @@ def tune_c02(rng, k):
         k["double_retract"] = 0.3
     if rng.random() < 0.35:
         k["w"]["upload"] = 4            # an upload is filtered offline while the print goes on
+    k["silent_abort"] = rng.random() < 0.3
+    if mode == "clear" and rng.random() < 0.3:
+        # earlier jobs of the run are ordinary (episodes, aborts, restarts without an end event) and are not
+        # judged; the last job keeps clear of what is left of the regions and must come out verbatim
+        k["dirty_first"] = True
+        k["prints"] = rng.choice([2, 2, 3])
+        k["p_abort"] = 0.5
     if mode == "clear" and rng.random() < 0.5:
         # disable ... enable brackets inside a clear-path program: still nothing may be altered, but the
         # decisions after re-enabling depend on the position tracked while exclusion was off
@@ -122,6 +129,8 @@ def tune_c04(rng, k):
     if rng.random() < 0.25:
         k["tiny_e"] = 0.3
         k["w"]["g92e"] = 6
+    if rng.random() < 0.3:
+        k["w"]["rehome"] = 1.5       # G28 (full or partial) in the middle of the job, outside episodes
 
 
 tune_c05 = tune_c04
@@ -168,6 +177,8 @@ def tune_c06(rng, k):
         k["wipe"] = 0.3
         k["retract"] = "e"
         k["w"]["retract"] = 12
+    if rng.random() < 0.3:
+        k["w"]["upload"] = 5
 
 
 def tune_c14(rng, k):
@@ -413,6 +424,7 @@ class RestartCheck(object):
         k2["nops"] = rng.choice([5, 10, 20, 40])
         k2["p_abort"] = 0.2
         k2["p_end_inside"] = 0.3
+        k2["w"]["upload"] = 0
         k2["wipe"] = rng.choice([0, 0.3])
         k2["w"]["arc"] = rng.choice([0, 4, 8])
         regions = {} if cfg["settings"].get("clearRegionsAfterPrintFinishes") else g1.regions
@@ -574,6 +586,7 @@ class OfflineCheck(object):
         k["prints"] = 1
         k["p_abort"] = 0.3
         k["aim_w"] = [50, 5, 10, 35]
+        k["w"]["upload"] = 0          # the uploader is this world's own actor
         cfg, ops1, g1 = gen.gen_print_schedule(rng, "C20", k, return_gen=True)
         cut = rng.randrange(1, len(ops1) + 1)
         live_rest = ops1[cut:]
